@@ -26,6 +26,7 @@ import (
 	"errors"
 	"fmt"
 	"io"
+	stdlog "log"
 	"math/rand"
 	"net"
 	"net/http"
@@ -114,6 +115,14 @@ type c07Case struct {
 	NGroup   int        `json:"ngroup,omitempty"`
 	CustomEH bool       `json:"custom_eh,omitempty"` // Echo.HTTPErrorHandler = counting wrapper around DefaultHTTPErrorHandler
 	PreNoop  bool       `json:"pre_noop,omitempty"`  // a transparent Pre middleware (ServeHTTP's premiddleware branch)
+	// configuration NEXT to Debug that must not matter for the response:
+	// LogLvl: Echo.Logger.SetLevel (0 = leave the default; 1 DEBUG 2 INFO 3 WARN 4 ERROR 5 OFF)
+	// Knobs (bits): 1 HideBanner+HidePort, 2 a JSONSerializer of the application's own type that
+	// delegates to the default one, 4 Validator + Renderer + Binder + IPExtractor set, 8 Logger
+	// prefix / header / output to a buffer, 16 StdLogger + Server timeouts + DisableHTTP2 +
+	// ListenerNetwork, 32 Debug logging on the per-request logger (Context.SetLogger at DEBUG)
+	LogLvl int `json:"log_lvl,omitempty"`
+	Knobs  int `json:"knobs,omitempty"`
 	// ---- request level ----
 	Skip  []int  `json:"skip,omitempty"`  // indices of Recover layers whose Skipper skips this request
 	Via   string `json:"via,omitempty"`   // "" our handler | 404 | 405: the router's own handlers return echo.ErrNotFound / echo.ErrMethodNotAllowed
@@ -881,6 +890,7 @@ type c07State struct {
 	logFn   []c07LogFnCall // LogErrorFunc invocations
 	skipper []int          // layers whose Skipper was consulted
 
+	serialized int     // calls of the application's JSONSerializer
 	after     bool     // From == after: the handler has returned, the middleware is failing now
 	panicLogs []string // levels at which "[PANIC RECOVER] ..." was logged
 	errorLogs int      // other Logger.Error calls (the error handler's own write failed)
@@ -954,11 +964,68 @@ func c07Middleware(c *c07Case, st *c07State, i int, l c07Layer, skippable bool) 
 	return middleware.RecoverWithConfig(cfg)
 }
 
+// a JSONSerializer of the application's own type, behaviourally the default one
+type c07Serializer struct {
+	echo.DefaultJSONSerializer
+	n *int
+}
+
+func (s c07Serializer) Serialize(c echo.Context, i interface{}, indent string) error {
+	*s.n++
+	return s.DefaultJSONSerializer.Serialize(c, i, indent)
+}
+
+type c07Validator struct{}
+
+func (c07Validator) Validate(i interface{}) error { return nil }
+
+type c07Renderer struct{}
+
+func (c07Renderer) Render(w io.Writer, name string, data interface{}, c echo.Context) error {
+	_, err := io.WriteString(w, "page")
+	return err
+}
+
 func c07NewEcho(c *c07Case, st *c07State) *echo.Echo {
 	e := echo.New()
 	e.Logger.SetOutput(io.Discard)
+	if c.LogLvl >= 1 && c.LogLvl <= 5 {
+		e.Logger.SetLevel(log.Lvl(c.LogLvl))
+	}
+	if c.Knobs&8 != 0 {
+		e.Logger.SetPrefix("app")
+		e.Logger.SetHeader("${time_rfc3339} ${level} ${prefix}")
+		e.Logger.SetOutput(&bytes.Buffer{})
+	}
 	e.Logger = &c07Logger{Logger: e.Logger, st: st}
 	e.Debug = c.Debug
+	if c.Knobs&1 != 0 {
+		e.HideBanner, e.HidePort = true, true
+	}
+	if c.Knobs&2 != 0 {
+		e.JSONSerializer = c07Serializer{n: &st.serialized}
+	}
+	if c.Knobs&4 != 0 {
+		e.Validator, e.Renderer, e.Binder = c07Validator{}, c07Renderer{}, &echo.DefaultBinder{}
+		e.IPExtractor = echo.ExtractIPDirect()
+	}
+	if c.Knobs&16 != 0 {
+		e.StdLogger = stdlog.New(io.Discard, "std: ", 0)
+		e.Server.ReadTimeout, e.Server.WriteTimeout = time.Second, time.Second
+		e.DisableHTTP2, e.ListenerNetwork = true, "tcp4"
+	}
+	if c.Knobs&32 != 0 {
+		// the application switches debug LOGGING on for the request: not Echo.Debug
+		e.Pre(func(next echo.HandlerFunc) echo.HandlerFunc {
+			return func(ctx echo.Context) error {
+				l := log.New("request")
+				l.SetOutput(io.Discard)
+				l.SetLevel(log.DEBUG)
+				ctx.SetLogger(l)
+				return next(ctx)
+			}
+		})
+	}
 	if c.CustomEH {
 		e.HTTPErrorHandler = func(err error, ctx echo.Context) {
 			st.ehErrs = append(st.ehErrs, err)
@@ -1535,6 +1602,12 @@ func c07One(e *echo.Echo, cfg, c *c07Case, raised *c07Err, st *c07State, tagSet 
 	if cfg.Debug {
 		tag("debug")
 	}
+	if cfg.LogLvl != 0 {
+		tag("logger-level:" + []string{"", "DEBUG", "INFO", "WARN", "ERROR", "OFF"}[cfg.LogLvl%6])
+	}
+	if cfg.Knobs != 0 {
+		tag("config-knobs-next-to-Debug")
+	}
 	if c.Panic != "" {
 		tag("panic:" + c.Panic)
 	} else {
@@ -1818,6 +1891,10 @@ func c07GenConfig(r *rand.Rand, c *c07Case) {
 	c.CustomEH = r.Intn(3) == 0
 	c.PreNoop = r.Intn(6) == 0
 	c.Recover, c.DisableEH, c.Double = false, false, false
+	c.LogLvl = []int{0, 0, 1, 1, 1, 2, 3, 4, 5}[r.Intn(9)]
+	if r.Intn(2) == 0 {
+		c.Knobs = r.Intn(64)
+	}
 }
 
 // one failing request for the chain of cfg
@@ -1883,7 +1960,7 @@ func c07GenCase(r *rand.Rand, maxDepth int) *c07Case {
 	cfg := &c07Case{}
 	c07GenConfig(r, cfg)
 	c := c07GenRequest(r, cfg, maxDepth)
-	c.Debug, c.Layers, c.NPre, c.NUse, c.NGroup, c.CustomEH, c.PreNoop = cfg.Debug, cfg.Layers, cfg.NPre, cfg.NUse, cfg.NGroup, cfg.CustomEH, cfg.PreNoop
+	c.Debug, c.Layers, c.NPre, c.NUse, c.NGroup, c.CustomEH, c.PreNoop, c.LogLvl, c.Knobs = cfg.Debug, cfg.Layers, cfg.NPre, cfg.NUse, cfg.NGroup, cfg.CustomEH, cfg.PreNoop, cfg.LogLvl, cfg.Knobs
 	return c
 }
 
@@ -1974,6 +2051,7 @@ func c07Gen(r *rand.Rand, tier string) []any {
 	out = append(out, c07GenBytes(r)...)
 	out = append(out, c07GenCommitPanics(r)...)
 	out = append(out, c07GenFastPaths(r)...)
+	out = append(out, c07GenKnobs(r)...)
 	for i := 0; i < nrt; i++ {
 		c := c07GenCase(r, depth)
 		for c07UsesSent(c.Err) || c.Ctx != "" || c.WFail {
@@ -2291,6 +2369,37 @@ func c07GenFastPaths(r *rand.Rand) []any {
 	return out
 }
 
+// the no-leak clause (and everything else) under every configuration knob next to Debug: logger
+// level, logger prefix / output, banner, an application JSONSerializer, Validator / Renderer /
+// Binder, server settings, a request logger at DEBUG — with Debug OFF and ON
+func c07GenKnobs(r *rand.Rand) []any {
+	var out []any
+	g := &c07G{r: r, next: 2400}
+	rec := []c07Layer{{K: "recover", Default: true}}
+	k := 0
+	for lvl := 0; lvl <= 5; lvl++ {
+		for _, knobs := range []int{0, 1, 2, 4, 8, 16, 32, 63} {
+			for _, debug := range []bool{false, false, true} {
+				k++
+				shapes := []*c07Err{
+					{K: "plain", T: g.atom()},
+					{K: "wrap", T: g.atom(), V: k % 3, In: &c07Err{K: "plain", Std: 1 + k%len(c07StdErrs)}},
+					{K: "http", Code: 502, Msg: &c07Msg{K: "str", T: g.atom()}, V: 1, In: &c07Err{K: "plain", T: g.atom()}},
+					{K: "http", Code: 400, Msg: &c07Msg{K: "str", T: g.atom()}, V: 1, In: &c07Err{K: "http", Code: 409, Msg: &c07Msg{K: "str", T: g.atom()}, V: 1, In: &c07Err{K: "plain", T: g.atom()}}},
+				}
+				c := &c07Case{Debug: debug, Method: []string{http.MethodGet, http.MethodPost}[k%2], LogLvl: lvl, Knobs: knobs, Layers: rec, NUse: k % 2,
+					Err: shapes[k%4], CustomEH: k%3 == 0}
+				c.Then = []*c07Case{
+					{Method: http.MethodGet, Panic: "str", PanicT: g.atom()},
+					{Method: http.MethodGet, Panic: "err", Err: shapes[(k+1)%4]},
+				}
+				out = append(out, c)
+			}
+		}
+	}
+	return out
+}
+
 func c07Shrink(ci any) []any {
 	c := ci.(*c07Case)
 	var out []any
@@ -2316,7 +2425,7 @@ func c07Shrink(ci any) []any {
 		add(func(d *c07Case) {
 			h := *d.Then[0]
 			h.Debug, h.Recover, h.DisableEH, h.Double, h.RoundTrip = c.Debug, c.Recover, c.DisableEH, c.Double, false
-			h.Layers, h.NPre, h.NUse, h.NGroup, h.CustomEH, h.PreNoop = c.Layers, c.NPre, c.NUse, c.NGroup, c.CustomEH, c.PreNoop
+			h.Layers, h.NPre, h.NUse, h.NGroup, h.CustomEH, h.PreNoop, h.LogLvl, h.Knobs = c.Layers, c.NPre, c.NUse, c.NGroup, c.CustomEH, c.PreNoop, c.LogLvl, c.Knobs
 			h.Then = d.Then[1:]
 			*d = h
 		})
@@ -2362,6 +2471,18 @@ func c07Shrink(ci any) []any {
 	if c.CustomEH {
 		add(func(d *c07Case) { d.CustomEH = false })
 	}
+	if c.Knobs != 0 {
+		add(func(d *c07Case) { d.Knobs = 0 })
+		for b := 1; b <= 32; b <<= 1 {
+			if c.Knobs&b != 0 && c.Knobs != b {
+				b := b
+				add(func(d *c07Case) { d.Knobs = b })
+			}
+		}
+	}
+	if c.LogLvl != 0 {
+		add(func(d *c07Case) { d.LogLvl = 0 })
+	}
 	if c.PreNoop {
 		add(func(d *c07Case) { d.PreNoop = false })
 	}
@@ -2371,17 +2492,20 @@ func c07Shrink(ci any) []any {
 	if c.DisableEH {
 		add(func(d *c07Case) { d.DisableEH = false })
 	}
-	if c.Pre != "" {
+	if c.Pre != "" && c.In == "" { // (with In set the normalisation would put a Pre back)
 		add(func(d *c07Case) { d.Pre, d.PreCode = "", 0 })
 	}
 	if c.Debug {
 		add(func(d *c07Case) { d.Debug = false })
 	}
-	if c.Method != http.MethodGet {
+	if c.Method != http.MethodGet && c.Via != "405" { // (405 needs a method the route does not have)
 		add(func(d *c07Case) { d.Method = http.MethodGet })
 	}
 	if c.Ctx != "" {
 		add(func(d *c07Case) { d.Ctx = "" })
+	}
+	if c.Via != "" {
+		add(func(d *c07Case) { d.Via, d.Method, d.Err = "", http.MethodGet, &c07Err{K: "plain", T: 1} })
 	}
 	if c.WFail {
 		add(func(d *c07Case) { d.WFail = false })
@@ -2408,7 +2532,7 @@ func c07Shrink(ci any) []any {
 	if len(c.Skip) > 0 {
 		add(func(d *c07Case) { d.Skip = nil })
 	}
-	if c.Panic == "err" {
+	if c.Panic == "err" && c.In == "" {
 		add(func(d *c07Case) { d.Panic = "" })
 	}
 	if c.Err != nil && c.Via == "" {
@@ -2515,7 +2639,7 @@ func c07Mutate(r *rand.Rand, ci any) []any {
 func init() {
 	register(&Prop{
 		ID:             "C07",
-		Rule:           "an Echo configuration x a sequence of 1-4 failing requests through that one Echo, served one after the other on one goroutine (pooled context reused), each judged on its own.  Error values as trees: plain | wrap (fmt.Errorf(%w), errors.Join, an application type with Unwrap) | *echo.HTTPError (NewHTTPError / literal / SetInternal / WithInternal) with message kinds {string, default StatusText, error value, json.Marshaler (also one that is an error too), map/struct/slice/named string type, nil} and Internal {none, plain, wrapped, HTTPError, nested}, depth <= 3 (thorough: 5), codes 200-599 incl. 204/304; plain errors are unique markers or one of 18 well-known error VALUES (context.Canceled, context.DeadlineExceeded, io.EOF, io.ErrUnexpectedEOF, http.ErrAbortHandler (returned), http.ErrHandlerTimeout, os.ErrNotExist, sql.ErrNoRows, net.ErrClosed, echo.ErrValidatorNotRegistered, ...); HTTP errors may be built from 16 exported echo variables (echo.ErrInternalServerError, ErrNotFound, ErrUnauthorized, ...) as they are or decorated with SetInternal (changes the variable for all later requests; the harness tracks that symbolically, runs such cases alone and restores the variables) / WithInternal; the router's own 404 / 405 as error sources.  x raised in the route's handler or in a middleware at Pre / Use / group level x returned or panicked (panic values: error, string, int, struct, http.ErrAbortHandler) x a middleware chain of 0-4 layers, each a Recover instance (Recover() or RecoverWithConfig with DisableErrorHandler, Skipper skipping per request, LogErrorFunc returning the same error / another error / nil, every LogLevel, DisablePrintStack, DisableStackAll, StackSize 0/1/64/4096/16384) or a middleware that calls c.Error(err) and returns err or nil, placed at Pre / Use / group / route level x Echo.HTTPErrorHandler = the default or a counting wrapper around it (number of hand-overs and the error value handed over are checked) x the failing code did {nothing, String, NoContent, Flush, WriteHeader, failed JSON} before failing, or wrote / flushed through the optional-interface probes of the standard library {io.Copy from a source without WriteTo (io.ReaderFrom), io.Copy from a strings.Reader and io.WriteString (io.StringWriter), c.Stream, http.ResponseController.Flush, the FlushError convention} with the implicit commit theirs (200 or a status preset by a failed JSON), on an underlying writer with none / io.ReaderFrom / io.StringWriter+FlushError / all of them (net/http's connection writer has all, httptest.ResponseRecorder none), the failure coming from the handler, from a middleware instead of the handler, or from the innermost Use-level middleware AFTER the handler returned x GET/HEAD/POST/PUT/DELETE/OPTIONS/PATCH x Debug x request context live / cancelled / past its deadline x underlying writer accepting or failing every Write; fixed families: legacy configurations, decision points of the handler (two Internal levels, %w around / inside an HTTPError), every well-known value in four positions x three chains, every exported variable decorated in request 1 and plain errors / panics / the bare variable / router 404+405 afterwards, every LogErrorFunc mode x DisableErrorHandler x outer middleware x LogLevel, Skipper masks over 1-3 (+1 default) instances; every text is a unique marker, a third of the string / error-valued messages and a quarter of the plain / wrapper texts and panic strings followed by one of 19 byte decorations (NUL, 0x01, \\a, \\v, DEL, invalid UTF-8, a surrogate half, a non-printable astral rune, U+2028/2029, C1 controls, BOM, quotes, backslash, HTML characters, ESC sequence, non-ASCII text, format verbs): the oracle decodes the body as JSON and compares message (and Debug detail) with the original text up to U+FFFD for invalid bytes; one request in eight panics INSIDE the commit step of its own response write (a Response.Before hook that panics with any kind of value, or a status code outside 100..999 on a writer that refuses it like net/http); a follow-up request checks the server still serves; thorough: 3000 cases also through a real httptest.Server; non-trivial = tree depth >= 2, or a panic, or committed before the error, or a chain of >= 2 middlewares, or a sequence of requests",
+		Rule:           "an Echo configuration x a sequence of 1-4 failing requests through that one Echo, served one after the other on one goroutine (pooled context reused), each judged on its own.  Error values as trees: plain | wrap (fmt.Errorf(%w), errors.Join, an application type with Unwrap) | *echo.HTTPError (NewHTTPError / literal / SetInternal / WithInternal) with message kinds {string, default StatusText, error value, json.Marshaler (also one that is an error too), map/struct/slice/named string type, nil} and Internal {none, plain, wrapped, HTTPError, nested}, depth <= 3 (thorough: 5), codes 200-599 incl. 204/304; plain errors are unique markers or one of 18 well-known error VALUES (context.Canceled, context.DeadlineExceeded, io.EOF, io.ErrUnexpectedEOF, http.ErrAbortHandler (returned), http.ErrHandlerTimeout, os.ErrNotExist, sql.ErrNoRows, net.ErrClosed, echo.ErrValidatorNotRegistered, ...); HTTP errors may be built from 16 exported echo variables (echo.ErrInternalServerError, ErrNotFound, ErrUnauthorized, ...) as they are or decorated with SetInternal (changes the variable for all later requests; the harness tracks that symbolically, runs such cases alone and restores the variables) / WithInternal; the router's own 404 / 405 as error sources.  x raised in the route's handler or in a middleware at Pre / Use / group level x returned or panicked (panic values: error, string, int, struct, http.ErrAbortHandler) x a middleware chain of 0-4 layers, each a Recover instance (Recover() or RecoverWithConfig with DisableErrorHandler, Skipper skipping per request, LogErrorFunc returning the same error / another error / nil, every LogLevel, DisablePrintStack, DisableStackAll, StackSize 0/1/64/4096/16384) or a middleware that calls c.Error(err) and returns err or nil, placed at Pre / Use / group / route level x configuration next to Debug that must not matter {Echo.Logger level DEBUG / INFO / WARN / ERROR / OFF, logger prefix + header + output, HideBanner / HidePort, an application JSONSerializer delegating to the default, Validator + Renderer + Binder + IPExtractor, StdLogger + Server timeouts + DisableHTTP2 + ListenerNetwork, a per-request logger at DEBUG}: random on half of the cases plus a fixed family (every level x every knob x Debug off/on) — the model line does not contain them x Echo.HTTPErrorHandler = the default or a counting wrapper around it (number of hand-overs and the error value handed over are checked) x the failing code did {nothing, String, NoContent, Flush, WriteHeader, failed JSON} before failing, or wrote / flushed through the optional-interface probes of the standard library {io.Copy from a source without WriteTo (io.ReaderFrom), io.Copy from a strings.Reader and io.WriteString (io.StringWriter), c.Stream, http.ResponseController.Flush, the FlushError convention} with the implicit commit theirs (200 or a status preset by a failed JSON), on an underlying writer with none / io.ReaderFrom / io.StringWriter+FlushError / all of them (net/http's connection writer has all, httptest.ResponseRecorder none), the failure coming from the handler, from a middleware instead of the handler, or from the innermost Use-level middleware AFTER the handler returned x GET/HEAD/POST/PUT/DELETE/OPTIONS/PATCH x Debug x request context live / cancelled / past its deadline x underlying writer accepting or failing every Write; fixed families: legacy configurations, decision points of the handler (two Internal levels, %w around / inside an HTTPError), every well-known value in four positions x three chains, every exported variable decorated in request 1 and plain errors / panics / the bare variable / router 404+405 afterwards, every LogErrorFunc mode x DisableErrorHandler x outer middleware x LogLevel, Skipper masks over 1-3 (+1 default) instances; every text is a unique marker, a third of the string / error-valued messages and a quarter of the plain / wrapper texts and panic strings followed by one of 19 byte decorations (NUL, 0x01, \\a, \\v, DEL, invalid UTF-8, a surrogate half, a non-printable astral rune, U+2028/2029, C1 controls, BOM, quotes, backslash, HTML characters, ESC sequence, non-ASCII text, format verbs): the oracle decodes the body as JSON and compares message (and Debug detail) with the original text up to U+FFFD for invalid bytes; one request in eight panics INSIDE the commit step of its own response write (a Response.Before hook that panics with any kind of value, or a status code outside 100..999 on a writer that refuses it like net/http); a follow-up request checks the server still serves; thorough: 3000 cases also through a real httptest.Server; non-trivial = tree depth >= 2, or a panic, or committed before the error, or a chain of >= 2 middlewares, or a sequence of requests",
 		New:            func() any { return &c07Case{} },
 		Gen:            c07Gen,
 		Run:            c07Run,
